@@ -116,30 +116,56 @@ class Engine:
         """harness/preload_shim.c stat(): the path as given, else its realpath"""
         return statmap.get(path, statmap.get(os.path.realpath(path)))
 
-    def dir_str(self, dirpath, files, objf, statmap):
+    def target(self, f):
+        """the OBJECT a name of the pool directory denotes: the pool id of the file the name resolves to"""
+        d = self.pool.by_file.get(f)
+        if d is None:
+            return None
+        return d.link_to if d.kind == "link" else d.id
+
+    def reps(self, c):
+        """object -> the name that stands for it in observations of this case: the smallest of its names in the
+        directory that pass the per-file tests (the smallest name at all when none does).  WHICH of its names carries a
+        module is not an observable of pdsh (-L shows type/name/description, not files)"""
+        self.cur = c
+        by, ok = {}, {}
+        for f in c["files"]:
+            t = self.target(f)
+            if t is None:
+                continue
+            by.setdefault(t, set()).add(f)
+            p = self.given(self.pool.dir, f)
+            if self.passes_file_tests(file_stat(real_stat(p), self.override(c["statmap"], p))):
+                ok.setdefault(t, set()).add(f)
+        return {t: min(ok.get(t) or by[t]) for t in by}
+
+    def canon(self, c, f):
+        if not self.uses_env(c):
+            return f
+        t = self.target(f)
+        return f if t is None else self.reps(c).get(t, f)
+
+    def dir_str(self, dirpath, files, objf, statmap, spec=False):
         anc = self.pool.ancestors(dirpath)
         path = ",".join(file_stat(real_stat(a), statmap.get(a)) for a in anc)
         ents = []
-        seen_objects = set()
+        pooldir = dirpath == self.pool.dir
+        ids = [d.id for d in self.pool.descs]
+        reps = self.reps(self.cur) if pooldir else {}
         for f in files:
             p = self.given(dirpath, f)
             # stat follows symbolic links: an override given for the link's target applies to the link as well
             ov = self.override(statmap, p)
             st = file_stat(real_stat(p), ov)
             obj = objf(f)
-            if "sameobj" in getattr(self, "repaired", ()) and obj.startswith("m/") and self.passes_file_tests(st):
-                # one object under two names (symbolic / hard link): dlopen yields the handle of the entry that is
-                # registered already, the later name is opened and skipped (findings/C17-sameobj.patch) -- for the
-                # model: an object that registers nothing
-                try:
-                    ident = os.stat(p)[1:3]
-                except OSError:
-                    ident = None
-                if ident in seen_objects:
+            t = self.target(f) if pooldir else None
+            if spec and t is not None and reps.get(t, f) != f:
+                # the specification speaks about OBJECTS: one object under several names is one module, presented
+                # under the name that stands for it; its other names are files that are opened and register nothing
+                if obj.startswith("m/"):
                     obj = "n"
-                elif ident is not None:
-                    seen_objects.add(ident)
-            ents.append("%s,%s,%s" % (hx(f), st, obj))
+            oid = "" if (t is None or spec) else ",%d" % ids.index(t)
+            ents.append("%s,%s,%s%s" % (hx(f), st, obj, oid))
         return path + "@" + ";".join(ents)
 
     def passes_file_tests(self, st):
@@ -165,10 +191,7 @@ class Engine:
             ov = self.override(c["statmap"], p)
             if not self.passes_file_tests(file_stat(real_stat(p), ov)):
                 continue
-            try:
-                by.setdefault(os.stat(p)[1:3], []).append(f)
-            except OSError:
-                pass
+            by.setdefault(self.target(f), []).append(f)
         return sorted({f for g in by.values() if len(set(g)) > 1 for f in g})
 
     def pool_obj(self, f):
@@ -180,7 +203,7 @@ class Engine:
             return obj_str(self.pool.by_id[d.link_to], self.default_prio)
         return obj_str(d, self.default_prio)
 
-    def case_line(self, c, order=None, use=()):
+    def case_line(self, c, order=None, use=(), spec=False):
         sm = c["statmap"]
         self.cur = c
         uses_env = self.uses_env(c)
@@ -199,7 +222,7 @@ class Engine:
         toks = ["pers=%d" % c["pers"], "uid=%d" % c["uid"], "euid=%d" % c["euid"], "owner=" + owner,
                 "misc=" + ("~" if c["misc"] is None else hx(c["misc"]))]
         if c["envdir"]:
-            toks.append("env=" + self.dir_str(self.pool.dir, envfiles, self.pool_obj, sm))
+            toks.append("env=" + self.dir_str(self.pool.dir, envfiles, self.pool_obj, sm, spec=spec))
         else:
             toks.append("env=~")
         toks.append("builtin=" + self.dir_str(self.builtin, bfiles, self.builtin_obj, sm))
@@ -217,6 +240,8 @@ class Engine:
         extra_env = {}
         if c.get("misc_env") is not None:
             extra_env["PDSH_MISC_MODULES"] = c["misc_env"]
+        if c.get("misc_opt_first") is not None:
+            args += ["-M", c["misc_opt_first"]]      # an earlier -M: the LAST one counts
         if c.get("misc_opt") is not None:
             args += ["-M", c["misc_opt"]]
         args += list(extra) + [final]
@@ -232,21 +257,19 @@ class Engine:
             if r["rc"] != -999:
                 break               # a time-out alone is tried once more before it counts
         r["files"] = list(files)
+        self.cur = c
         return r
 
-    def observe(self, r):
-        """canonical observation of a `-L` run: (fatal, listed [(file, active)], calls [file], opened [file])"""
+    def observe(self, r, c=None):
+        """canonical observation of a `-L` run: (fatal, listed [(file, active)], calls [file], opened [file]); a module
+        prints the pool id of its OBJECT: it is reported under the name that stands for the object in this case"""
+        c = c if c is not None else self.cur
         listed = []
         opened = [os.path.basename(l.split(" ", 1)[1]) for l in r["log"] if l.startswith("dlopen ")]
+        reps = self.reps(c) if self.uses_env(c) else {}
 
         def file_of(d):
-            """the module prints its pool id: the file is the pool file of that id, or -- when that file is not in
-            this directory -- the link in this directory that points to it"""
-            names = [d.file] + [x.file for x in self.pool.descs if x.kind == "link" and x.link_to == d.id]
-            for o in opened:                      # the first of its names that was handed to dlopen
-                if o in names:
-                    return o
-            return d.file
+            return reps.get(d.id, d.file)
         for tn, act, descr in preload.parse_L(r["out"]):
             d = self.pool.by_id.get(descr)
             if d is not None:
@@ -261,20 +284,24 @@ class Engine:
         return {"rc": r["rc"], "fatal": r["rc"] != 0, "listed": listed, "calls": calls, "opened": opened}
 
 
-def parse_model(line):
+def parse_model(line, canon=None):
+    """the model's answer; `canon` maps a file name to the name that stands for its object in this case"""
+    canon = canon or (lambda f: f)
     w = line.split()
     out = {"fatal": w[0] == "fatal", "raw": line}
     for t in w[1:]:
         k, v = t.split("=", 1)
         out[k] = v
-    out["listed"] = [(unhx(x.split(":")[0]), x.split(":")[1] == "1") for x in out.get("L", "").split(",") if x]
-    out["calls"] = [unhx(x) for x in out.get("C", "").split(",") if x]
+    out["listed"] = [(canon(unhx(x.split(":")[0])), x.split(":")[1] == "1") for x in out.get("L", "").split(",") if x]
+    out["calls"] = [canon(unhx(x)) for x in out.get("C", "").split(",") if x]
     out["opened"] = [unhx(x) for x in out.get("D", "").split(",") if x]
     out["opts"] = unhx(out.get("O", "-"))
     out["uses"] = {}
     for x in out.get("U", "").split(","):
         if x:
             c, u = x.split(":")
+            if u.startswith("h"):
+                u = "h%s.%s" % (hx(canon(unhx(u[1:].split(".")[0]))), u.split(".")[1])
             out["uses"][chr(int(c))] = u
     return out
 
@@ -382,6 +409,8 @@ def gen_case(rng, eng, shape=None):
             c["misc_env"] = mk()
         else:
             c["misc_env"], c["misc_opt"] = mk(), mk()
+            if rng.random() < 0.4:
+                c["misc_opt_first"] = mk()
         # an empty -M argument is an empty string: misc_modules = "" (strlen 0: ignored)
         c["misc"] = c["misc_opt"] if c["misc_opt"] is not None else c["misc_env"]
     return c
@@ -460,6 +489,10 @@ def pinned_classes(eng, mk):
     orders(["r01", "r09", "m01"])                    # rcmd duplicate, the better one conflicts with alpha
     orders(["m06", "s01", "m28"])                    # one object under two names
     orders(["m34", "m01", "s01"])
+    orders(["m19", "a19", "m01"])                    # one object under names on BOTH sides of an equal-priority duplicate
+    orders(["m20", "a20", "m02"])                    # ... of a higher-priority duplicate (the object is evicted / refused)
+    orders(["m20", "a20", "m02", "m31"])
+    orders(["m18", "a19", "m19"])                    # ... of a higher-priority duplicate: dropped, second name starts afresh
     # conflicts
     orders(["m03", "m04", "m05"])                    # eps(200) j | delta j,g | gamma g,i : delta loses on its FIRST row
     orders(["m07", "m32", "m16"])                    # eta n,q(built-in): loses on its SECOND row, zz must get n
@@ -489,6 +522,20 @@ def pinned_classes(eng, mk):
             c["misc"] = c["misc_opt"] if c["misc_opt"] is not None else c["misc_env"]
             c["_all_letters"] = how == "opt"
             c["_no_letters"] = how != "opt"
+            c["pinned"] = "-M"
+            out.append(c)
+    # -M REPLACES PDSH_MISC_MODULES and an earlier -M (it is not added to them): the environment / the earlier option
+    # names a module that CONFLICTS with the one the last -M asks for (shared letter, failing initialiser, duplicate)
+    for files, a, b in ((["m01.so", "m02.so"], "alpha", "beta"), (["m02.so", "m01.so", "m22.so"], "tau", "alpha"),
+                        (["m03.so", "m04.so", "m05.so"], "gamma", "delta"), (["m14.so", "m13.so"], "xi", "nu"),
+                        (["m28.so", "m06.so", "m29.so"], "zeta", "psi"), (["m33.so", "m27.so", "m08.so", "m09.so"], "iota", "aaa")):
+        for env, first, opt in ((b, None, a), (a, None, b), (b + "," + a, None, a), (b, None, ""), ("nosuch", None, a),
+                                (None, b, a), (None, a, b), (b, a, a), (a, b, "nosuch"), (b, None, None)):
+            c = mk(list(files))
+            c["misc_env"], c["misc_opt_first"], c["misc_opt"] = env, first, opt
+            c["misc"] = opt if opt is not None else env
+            c["_all_letters"] = env == b and first is None and opt == a
+            c["_no_letters"] = not c["_all_letters"]
             c["pinned"] = "-M"
             out.append(c)
     # permissions
@@ -578,9 +625,9 @@ def order_dep_signature(eng, c, model_env_line=None):
     mods = []
     for f in c["files"]:
         d = pool.by_file.get(f)
-        if d is None or d.kind != "mod":
+        if d is None or d.kind not in ("mod", "link"):
             continue
-        st = file_stat(real_stat(os.path.join(pool.dir, f)), sm.get(os.path.join(pool.dir, f)))
+        st = file_stat(real_stat(os.path.join(pool.dir, f)), eng.override(sm, os.path.join(pool.dir, f)))
         if st == "!":
             continue
         uid, mode = [int(x) for x in st.split(":")]
@@ -596,12 +643,22 @@ def order_dep_signature(eng, c, model_env_line=None):
         top[k] = max(top.get(k, prio(d)), prio(d))
     best = [d for d in ok if prio(d) == top[(d.type, d.name)]]
     pats = set()
+    if "sameobj-tie" not in eng.repaired:
+        # F17-SAMEOBJ-TIE: one object under two names that pass the file tests, and ANOTHER object with the same type and
+        # name and the same (group-maximal) priority
+        tw = eng.twins(c)
+        for a, b in itertools.combinations(best, 2):
+            if (a.type, a.name) == (b.type, b.name) and eng.target(a.file) != eng.target(b.file) and \
+               (a.file in tw or b.file in tw):
+                pats.add("sameobj-tie")
     if "pers" not in eng.repaired:
         for f in foreign:
             if any((f.type, f.name) == (d.type, d.name) and prio(f) > prio(d) for d in ok):
                 pats.add("dup-pers")
     if "tie" not in eng.repaired:
         for a, b in itertools.combinations(best, 2):
+            if eng.target(a.file) == eng.target(b.file):
+                continue
             if (a.type, a.name) == (b.type, b.name):
                 pats.add("dup-equal")
             elif a.name == b.name and prio(a) == prio(b):
@@ -652,35 +709,55 @@ def run(ctx):
         eng = Engine(ctx, pool, repo)
         # which form of _mod_register is this? (F17-PERS repaired = personality test before the duplicate
         # handling: the loadable lower-priority module survives whatever the order)
-        probe = planned_cases(eng)[2]
+        # WHICH FORM OF EACH REPAIRED FUNCTION IS THIS?  The model without a switch is the code as it is now (/repo HEAD:
+        # all five repairs); a binary that shows an older form of one function gets the model of that form, so that the
+        # revert of a repair is reported by the specification / determinism oracle with a replay (not as a broken
+        # correspondence).  Every probe is behavioural: a tiny directory run through the binary.
+        base = planned_cases(eng)[0]
         eng.margs = ["model"]
         eng.repaired = set()
-        if ("m25.so", True) in eng.observe(eng.run(probe))["listed"]:
-            eng.margs = ["model", "persfirst"]
+        # F17-PERS (59829e8): the personality is tested before the duplicate handling -- the loadable lower-priority
+        # module survives whatever the order
+        if ("m25.so", True) in eng.observe(eng.run(planned_cases(eng)[2]))["listed"]:
             eng.repaired.add("pers")
-            ctx.log("_mod_register tests the personality first (F17-PERS repaired): model runs as `persfirst`")
-        # F17-TIE repaired (findings/C17.patch)?  misc/tie + rcmd/tie and the two equal-priority misc/alpha give
-        # the same list in both enumeration orders
+        else:
+            eng.margs.append("nopers")
+            ctx.log("_mod_register tests the personality AFTER the eviction (F17-PERS as before 59829e8): model `nopers`")
+
+        # F17-TIE (c80ee4f): misc/tie + rcmd/tie and the two equal-priority misc/alpha give the same list in both orders
         def same_both_orders(files):
-            pc = dict(planned_cases(eng)[0], files=list(files))
+            pc = dict(base, files=list(files))
             a = eng.observe(eng.run(pc))["listed"]
             b = eng.observe(eng.run(pc, order=list(reversed(files))))["listed"]
             return a == b
         if same_both_orders(["m26.so", "r05.so"]) and same_both_orders(["m01.so", "m19.so"]):
-            eng.margs.append("tiefix")
             eng.repaired.add("tie")
-            ctx.log("ties are broken by type / file name (F17-TIE repaired): model runs as `tiefix`")
-        # F17-SAMEOBJ repaired (findings/C17-sameobj.patch)?  one object under two names no longer ends the run
-        so = eng.observe(eng.run(dict(planned_cases(eng)[0], files=["m06.so", "s01.so", "m01.so"])))
+        else:
+            eng.margs.append("notie")
+            ctx.log("ties are resolved by enumeration order (F17-TIE as before c80ee4f): model `notie`")
+        # F17-SAMEOBJ (fde0027): one object under two names no longer ends the run
+        so = eng.observe(eng.run(dict(base, files=["m06.so", "s01.so", "m01.so"])))
         if so["rc"] == 0 and ("m06.so", True) in so["listed"] and ("m01.so", True) in so["listed"]:
             eng.repaired.add("sameobj")
-            ctx.log("an object under a second name is skipped (F17-SAMEOBJ repaired)")
-        # F17-PRIO-OVERFLOW repaired (findings/C17-prio.patch)?  priority INT_MIN sorts behind priority 100
-        po = eng.observe(eng.run(dict(planned_cases(eng)[0], files=["m36.so", "m01.so"])))
+        else:
+            eng.margs.append("nosameobj")
+            ctx.log("an object under a second name is registered again (F17-SAMEOBJ as before fde0027): model `nosameobj`")
+        # F17-PRIO-OVERFLOW (930abcb): priority INT_MIN sorts behind priority 100
+        po = eng.observe(eng.run(dict(base, files=["m36.so", "m01.so"])))
         if [f for f, _ in po["listed"]] == ["m01.so", "m36.so"]:
             eng.repaired.add("prio")
-            ctx.log("_cmp_f compares priorities without subtracting them (F17-PRIO-OVERFLOW repaired)")
-        dist["variant"] = " ".join(eng.margs + sorted(x for x in eng.repaired if x in ("sameobj", "prio")))
+        elif "tie" in eng.repaired:
+            eng.margs.append("wrapprio")
+            ctx.log("_cmp_f subtracts priorities (F17-PRIO-OVERFLOW as before 930abcb): model `wrapprio`")
+        # F17-SAMEOBJ-TIE (open; findings/C17-sameobj-tie.patch): an object registered under its larger name, its smaller
+        # name skipped, is no longer replaced by an equal-priority duplicate whose file name lies between the two
+        if "sameobj" in eng.repaired and "tie" in eng.repaired:
+            st = eng.observe(eng.run(dict(base, files=["m19.so", "a19.so", "m01.so"])))
+            if st["rc"] == 0 and [f for f, _ in st["listed"]] == ["a19.so"]:
+                eng.repaired.add("sameobj-tie")
+                eng.margs.append("rename")
+                ctx.log("a skipped second name takes over when it is the smaller one (F17-SAMEOBJ-TIE repaired): model `rename`")
+        dist["variant"] = " ".join(eng.margs) + " | repaired: " + ",".join(sorted(eng.repaired))
         if getattr(ctx, "replay", None):
             cases = replay_cases(ctx, eng)
             cov["rule"] = "replay of %s: exactly the recorded case(s), both recorded enumeration orders, every " \
@@ -688,7 +765,7 @@ def run(ctx):
             check_cases(ctx, eng, cases, cov, dist, distinct, rng)
         else:
             cases = [(c, "planned") for c in planned_cases(eng)]
-            n = 1800 if ctx.quick() else 20000
+            n = 1500 if ctx.quick() else 20000
             cases += [(gen_case(rng, eng), "random") for _ in range(n)]
             if not ctx.quick():
                 cases += [(c, "matrix") for c in perm_matrix(eng)]
@@ -701,13 +778,13 @@ def run(ctx):
         LEVEL, cov,
         assumptions=["dlopen/dlsym deliver the descriptor compiled into the generated module (trusted loader)",
                      "stat/readdir/getuid results are what the shim returns (the kernel is a parameter of the model)",
-                     "module priorities far from INT_MAX (no overflow in _cmp_f's subtraction)",
                      "the activation clause of the specification is not evaluated for directories with a failing "
                      "initialiser (the text is silent on what happens to its registered options); the model "
                      "correspondence still covers them",
                      "-M lists of the oracle's domain contain no brackets (list_split is bracket aware; modelled)",
-                     "directory entries are distinct objects; one object under two names is finding F17-SAMEOBJ (with "
-                     "findings/C17-sameobj.patch the later name is fed to the model as an object that registers nothing)",
+                     "a module directory maps names to objects and two names may share one (the model takes the map; the "
+                     "check builds it from the pool's symbolic links); WHICH of its names carries a module is not observable: "
+                     "observations and model answers name an object by the smallest of its names that passes the file tests",
                      "a directory that cannot be opened is run as a directory without entries"],
         trusted_base=["Lean 4.33 kernel", "axioms: propext, Classical.choice, Quot.sound at most (audited per theorem)",
                       "hand-written model Mod/Load.lean tied to mod.c/opt.c/list.c by differential execution",
@@ -899,9 +976,7 @@ def check_cases(ctx, eng, cases, cov, dist, distinct, rng):
             hl = [l.split() for l in ru["log"] if l.startswith("opt ")]
             if hl:
                 _, mid, code, arg = hl[0]
-                hf = eng.pool.by_id[mid].file
-                names = [hf] + [x.file for x in eng.pool.descs if x.kind == "link" and x.link_to == mid]
-                hf = next((x for x in o1["opened"] if x in names), hf)
+                hf = eng.reps(c).get(mid, eng.pool.by_id[mid].file)
                 uses[ch] = "h%s.%d" % (hx(hf), 0 if arg == "~" else 1)
                 if int(code) != ord(ch) or (arg not in ("~", hx("-L"))) or (arg == "~" and ru["rc"] != 0) or len(hl) != 1:
                     uses[ch] += "?"     # never matches the model: reported as a disagreement
@@ -916,9 +991,9 @@ def check_cases(ctx, eng, cases, cov, dist, distinct, rng):
     text2 = "".join(eng.case_line(c, order=o2l) + "\n" for c, _, _, _, o2l, _ in recs)
     mlines = ctx.model("mod", text, args=eng.margs)
     mlines2 = ctx.model("mod", text2, args=eng.margs)
-    stext = "".join(eng.case_line(c, use=list(u.keys())) + obs_tokens(o1, u) + "\n" for c, _, o1, _, _, u in recs)
+    stext = "".join(eng.case_line(c, use=list(u.keys()), spec=True) + obs_tokens(o1, u) + "\n" for c, _, o1, _, _, u in recs)
     slines = ctx.model("mod", stext, args=["spec"])
-    stext2 = "".join(eng.case_line(c, order=o2l) + obs_tokens(o2, {}) + "\n" for c, _, _, o2, o2l, _ in recs)
+    stext2 = "".join(eng.case_line(c, order=o2l, spec=True) + obs_tokens(o2, {}) + "\n" for c, _, _, o2, o2l, _ in recs)
     slines2 = ctx.model("mod", stext2, args=["spec"])
     for i, (c, origin, o1, o2, order2, uses) in enumerate(recs):
         cov["evaluations"] += 1
@@ -942,6 +1017,7 @@ def check_cases(ctx, eng, cases, cov, dist, distinct, rng):
                for k in c["statmap"]):
             dist["insecure_path"] += 1
         case = dict({k: v for k, v in c.items() if not k.startswith("_")}, origin=origin)
+        canon = lambda f, c=c: eng.canon(c, f)
         tw = eng.twins(c)
         if tw:
             dist["same_object_twice"] = dist.get("same_object_twice", 0) + 1
@@ -952,7 +1028,7 @@ def check_cases(ctx, eng, cases, cov, dist, distinct, rng):
                   if f in eng.pool.by_file and eng.pool.by_file[f].kind in ("mod", "link")]
             if ps and max(ps) - min(ps) > 2147483647:
                 dist["priority_overflow_pairs"] = dist.get("priority_overflow_pairs", 0) + 1
-                m1, m2 = parse_model(mlines[i]), parse_model(mlines2[i])
+                m1, m2 = parse_model(mlines[i], canon), parse_model(mlines2[i], canon)
                 bad = slines[i] != "ok" or slines2[i] != "ok" or \
                     any(o[k] != m[k] for o, m in ((o1, m1), (o2, m2)) for k in ("fatal", "listed", "calls", "opened"))
                 if bad:
@@ -962,7 +1038,7 @@ def check_cases(ctx, eng, cases, cov, dist, distinct, rng):
                 continue
         if tw and "sameobj" not in eng.repaired:
             # F17-SAMEOBJ: _mod_destroy of the name that loses clears type and name of the descriptor BOTH names share
-            m1, m2 = parse_model(mlines[i]), parse_model(mlines2[i])
+            m1, m2 = parse_model(mlines[i], canon), parse_model(mlines2[i], canon)
             bad = o1["rc"] not in (0, 1) or o2["rc"] not in (0, 1) or slines[i] != "ok" or slines2[i] != "ok" or \
                 any(o[k] != m[k] for o, m in ((o1, m1), (o2, m2)) for k in ("fatal", "listed", "calls", "opened"))
             if bad:
@@ -981,7 +1057,7 @@ def check_cases(ctx, eng, cases, cov, dist, distinct, rng):
             ctx.offender("crash", "pdsh ends with status %s while loading modules" % o1["rc"], {"case": case, "obs": o1})
             continue
         for (o, ml, order, tag) in ((o1, mlines[i], None, "order1"), (o2, mlines2[i], order2, "order2")):
-            m = parse_model(ml)
+            m = parse_model(ml, canon)
             diff = [k for k in ("fatal", "listed", "calls", "opened") if o[k] != m[k]]
             if tag == "order1":
                 for ch, u in uses.items():
@@ -1007,19 +1083,6 @@ def check_cases(ctx, eng, cases, cov, dist, distinct, rng):
         # determinism: the observation must not depend on the enumeration order (dlopen order aside)
         a = (o1["fatal"], o1["listed"], o1["calls"], sorted(o1["opened"]))
         b = (o2["fatal"], o2["listed"], o2["calls"], sorted(o2["opened"]))
-        if tw:
-            # one object under two names: WHICH of its names carries the module is not an observable of pdsh (-L shows
-            # type/name, not files); compare by object
-            ident = {}
-            for f in tw:
-                try:
-                    ident.setdefault(os.stat(eng.given(eng.pool.dir, f))[1:3], []).append(f)
-                except OSError:
-                    pass
-            canon = {f: min(g) for g in ident.values() for f in g}
-            cn = lambda o: (o["fatal"], [(canon.get(f, f), x) for f, x in o["listed"]], [canon.get(f, f) for f in o["calls"]],
-                            sorted(o["opened"]))
-            a, b = cn(o1), cn(o2)
         if a != b:
             dist["order_dependent"] += 1
             sig = order_dep_signature(eng, c)
